@@ -6,6 +6,7 @@ import (
 	"fmt"
 	"net"
 	"os"
+	"reflect"
 	"regexp"
 	"strings"
 	"time"
@@ -1486,16 +1487,14 @@ func redact(s *string) {
 // Redacted returns a copy of the config with sensitive values redacted.
 // This is safe to log or display to users.
 func (c *Config) Redacted() *Config {
-	// Create a deep copy by marshaling and unmarshaling
-	data, err := yaml.Marshal(c)
-	if err != nil {
-		return c
+	if c == nil {
+		return &Config{}
 	}
 
-	redacted := &Config{}
-	if err := yaml.Unmarshal(data, redacted); err != nil {
-		return c
-	}
+	// Create a structural deep copy. A YAML marshal/unmarshal round trip is not a safe
+	// way to copy: some string values (e.g. ones starting with a newline) do not survive
+	// it, and handing out the original on failure would reveal every secret.
+	redacted := deepCopyValue(reflect.ValueOf(c)).Interface().(*Config)
 
 	// Redact global TLS key
 	redact(&redacted.TLS.Key)
@@ -1528,6 +1527,55 @@ func (c *Config) Redacted() *Config {
 	redact(&redacted.Management.SigningPrivateKey)
 
 	return redacted
+}
+
+// deepCopyValue returns a deep copy of v: pointers, structs, slices, arrays and maps are
+// copied recursively, every other kind is a plain value.
+func deepCopyValue(v reflect.Value) reflect.Value {
+	switch v.Kind() {
+	case reflect.Ptr:
+		if v.IsNil() {
+			return v
+		}
+		p := reflect.New(v.Type().Elem())
+		p.Elem().Set(deepCopyValue(v.Elem()))
+		return p
+	case reflect.Struct:
+		s := reflect.New(v.Type()).Elem()
+		s.Set(v)
+		for i := 0; i < v.NumField(); i++ {
+			if s.Field(i).CanSet() {
+				s.Field(i).Set(deepCopyValue(v.Field(i)))
+			}
+		}
+		return s
+	case reflect.Slice:
+		if v.IsNil() {
+			return v
+		}
+		s := reflect.MakeSlice(v.Type(), v.Len(), v.Len())
+		for i := 0; i < v.Len(); i++ {
+			s.Index(i).Set(deepCopyValue(v.Index(i)))
+		}
+		return s
+	case reflect.Array:
+		a := reflect.New(v.Type()).Elem()
+		for i := 0; i < v.Len(); i++ {
+			a.Index(i).Set(deepCopyValue(v.Index(i)))
+		}
+		return a
+	case reflect.Map:
+		if v.IsNil() {
+			return v
+		}
+		m := reflect.MakeMapWithSize(v.Type(), v.Len())
+		for _, k := range v.MapKeys() {
+			m.SetMapIndex(k, deepCopyValue(v.MapIndex(k)))
+		}
+		return m
+	default:
+		return v
+	}
 }
 
 // HasSensitiveData returns true if the config contains any sensitive data.
